@@ -327,3 +327,16 @@ Definition oseries_same (a b : oseries) : bool :=
   vlist_eqb (os_index a) (os_index b) && list_eqb cell_same (os_values a) (os_values b) && val_eqb (os_name a) (os_name b).
 Definition oseries_eqb_noname (a b : oseries) : bool :=
   vlist_eqb (os_index a) (os_index b) && vlist_eqb (os_values a) (os_values b) && dtype_eqb (os_dtype a) (os_dtype b).
+
+(* =================== kernel-level comparisons =================== *)
+Definition ckey_eqb (a b : ckey) : bool :=
+  match a, b with
+  | CAll, CAll => true
+  | CInt x, CInt y => x =? y
+  | CSlice s, CSlice t => slice_eqb s t
+  | CList l, CList m => list_eqb Z.eqb l m
+  | CMask l, CMask m => list_eqb Bool.eqb l m
+  | _, _ => false
+  end.
+
+Definition targets_eqb : list (Z * slice) -> list (Z * slice) -> bool := list_eqb (pair_eqb Z.eqb slice_eqb).
